@@ -10,7 +10,7 @@ from harness.props import c01
 
 LEVEL = "model_checking"
 # fuzzy expansion is the subject of C19 (and of a recorded finding there)
-NOFUZZY = ["term", "every", "null", "prefix", "wildcard", "termrange", "numrange", "phrase", "and", "or",
+NOFUZZY = ["term", "every", "null", "prefix", "wildcard", "regex", "termrange", "numrange", "phrase", "and", "or",
            "dismax", "andnot", "andmaybe", "require", "not", "const"]
 
 
